@@ -1,10 +1,355 @@
 (* Property oracles at the level of encoded observations: executable statements of the
-   properties, written against the specifications of Spec.v only (never against the
-   model functions), applied to the implementation's output at run time. *)
+   properties, written against the specifications of Spec.v only (never against the model's
+   parser / push / hash / query functions), applied to the implementation's output at run
+   time and to the model's output (where the theorems of Props/ say they must hold).
+   Result: 0 = the property fails on this case, 1 = holds, k >= 2 = the case belongs to the
+   known-finding class k of known_findings.json. *)
 From Coq Require Import List NArith Bool String Ascii.
 Import ListNotations.
 From TP Require Import Core Val Path Unix Win Obs Spec.
-Open Scope N_scope.
 Open Scope string_scope.
+Open Scope N_scope.
+Open Scope list_scope.
 
-Definition oracle (name suffix : string) (args : list val) (out : val) : bool := true.
+Inductive osel := OU | OW.
+Definition osel_of (suffix : string) : option osel :=
+  if tag_is suffix "u" || tag_is suffix "u8" || tag_is suffix "tu" || tag_is suffix "t8u" || tag_is suffix "pu" || tag_is suffix "p8" then Some OU
+  else if tag_is suffix "w" || tag_is suffix "w8" || tag_is suffix "tw" || tag_is suffix "t8w" then Some OW
+  else None.
+Definition ospec (s : osel) (p : list byte) : list wcomp := match s with OU => uspec p | OW => wspec p end.
+Definition otable (s : osel) : list byte := match s with OU => forbidden_unix | OW => forbidden_windows end.
+Definition ocomps_eq (s : osel) (a b : list byte) : bool := wlist_eqb (ospec s a) (ospec s b).
+
+(* accessors *)
+Definition vargs (t : string) (v : val) : option (list val) :=
+  match v with VC s l => if tag_is s t then Some l else None | _ => None end.
+Definition vnth (l : list val) (n : nat) : val := nth n l VN.
+Definition vsome (v : val) : option val := match vargs "S" v with Some [x] => Some x | _ => None end.
+Definition is_vn (v : val) : bool := match v with VN => true | _ => false end.
+Definition vbool (v : val) : option bool := match v with VBool b => Some b | _ => None end.
+Definition vbytes (v : val) : option (list byte) := match v with VB b => Some b | _ => None end.
+Definition obytes (v : val) : option (option (list byte)) :=       (* N | (S x..) *)
+  match v with
+  | VN => Some None
+  | _ => match vsome v with Some (VB b) => Some (Some b) | _ => None end
+  end.
+Definition pass : N := 1.
+Definition fail : N := 0.
+Definition ob (b : bool) : N := if b then 1 else 0.
+Definition oand (a b : N) : N := if a =? 0 then 0 else if b =? 0 then 0 else if 2 <=? a then a else b.
+
+(* comps of an encoded component list against a spec list *)
+Definition comps_match (vs : list val) (cs : list wcomp) : bool :=
+  val_eqb (VL vs) (VL (map e_wcomp cs)).
+
+Definition removelast_w (l : list wcomp) : list wcomp := rev (tl (rev l)).
+
+(* ---------------- C03 ---------------- *)
+Definition comp_slice (c : val) : option (list byte) :=
+  match c with
+  | VC t [VB n] => if tag_is t "Nm" then Some n else None
+  | VC t [VB raw; _] => if tag_is t "Px" then Some raw else None
+  | _ => None
+  end.
+Definition comp_bytes_enc (s : osel) (c : val) : list byte :=
+  match c with
+  | VC t [] => if tag_is t "R" then (match s with OU => [47] | OW => [92] end)
+               else if tag_is t "C" then [46] else if tag_is t "P" then [46; 46] else []
+  | _ => match comp_slice c with Some b => b | None => [] end
+  end.
+Definition junk_gap (sep : byte -> bool) (g : list byte) : bool :=
+  forallb (fun seg => match seg with [] => true | _ => beq_list seg [46] || beq_list seg [46; 46] end) (split_sep sep g []).
+(* slices (offset, length) in input order, strictly increasing and disjoint *)
+Fixpoint ordered (l : list (nat * nat)) (from : nat) : bool :=
+  match l with
+  | [] => true
+  | (o, n) :: r => Nat.leb from o && ordered r (o + n)
+  end.
+Fixpoint gaps_ok (sep : byte -> bool) (p : list byte) (l : list (nat * nat)) (from : nat) : bool :=
+  match l with
+  | [] => junk_gap sep (skipn from p)
+  | (o, n) :: r => junk_gap sep (firstn (o - from) (skipn from p)) && gaps_ok sep p r (o + n)
+  end.
+Definition oracle_c03 (s : osel) (p : list byte) (sched : list bool) (out : val) : N :=
+  match vargs "c03" out with
+  | Some [VL steps; VL isteps] =>
+      let spec := deq_run (ospec s p) sched in
+      let cvals := map (fun st => match vargs "st" st with Some l => vnth l 0 | None => VC "bad" [] end) steps in
+      let rems := map (fun st => match vargs "st" st with Some l => vnth l 1 | None => VC "bad" [] end) steps in
+      let offs := map (fun st => match vargs "st" st with Some l => vnth l 2 | None => VC "bad" [] end) steps in
+      (* 1. every component exactly once, in order, from the requested ends; None once exhausted and forever after *)
+      let seq_ok := val_eqb (VL cvals) (VL (map (fun x => vopt e_wcomp (fst x)) spec)) in
+      (* 2. prefix and normal components are the sub-slices of the input at the reported offsets *)
+      let slice_ok :=
+        forallb (fun co =>
+                   match vsome (fst co), vsome (snd co) with
+                   | Some c, Some (VI off) =>
+                       match comp_slice c with
+                       | Some b => beq_list b (firstn (List.length b) (skipn (N.to_nat off) p))
+                       | None => false
+                       end
+                   | Some c, None => match comp_slice c with Some _ => false | None => is_vn (snd co) end
+                   | Some _, Some _ => false
+                   | None, _ => is_vn (snd co)
+                   end) (combine cvals offs) in
+      (* 3. in order without overlap: front slices ascending, back slices descending, fronts before backs *)
+      let tagged := combine sched (combine cvals offs) in
+      let sl := fun (d : bool) =>
+        flat_map (fun x => if Bool.eqb (fst x) d then
+                             match vsome (fst (snd x)), vsome (snd (snd x)) with
+                             | Some c, Some (VI off) => match comp_slice c with Some b => [(N.to_nat off, List.length b)] | None => [] end
+                             | _, _ => []
+                             end else []) tagged in
+      let all_sl := sl false ++ rev (sl true) in
+      let order_ok := ordered all_sl O in
+      (* 4. when the schedule exhausted the iterator, what lies between the slices is separators, "." and ".." only *)
+      let exhausted := existsb (fun c => is_vn c) cvals in
+      let sep := match s with OU => usep_s | OW => s_wsep (s_norm p) end in
+      let gap_ok := if exhausted then gaps_ok sep p all_sl O else true in
+      (* 5. the byte-slice iterator yields the bytes of the same components and the same remainders *)
+      let iter_ok :=
+        val_eqb (VL isteps)
+                (VL (map (fun cr => vpair (match vsome (fst cr) with Some c => VSome (VB (comp_bytes_enc s c)) | None => VN end) (snd cr))
+                         (combine cvals rems))) in
+      ob (seq_ok && slice_ok && order_ok && gap_ok && iter_ok)
+  | _ => fail
+  end.
+
+(* ---------------- C09 ---------------- *)
+(* r is the parent of p: a leading byte slice whose components are p's without the last *)
+Definition parent_rel (s : osel) (p r : list byte) : bool :=
+  bytes_prefix r p && wlist_eqb (ospec s r) (removelast_w (ospec s p)) &&
+  match last_w (ospec s p) with Some c => removable c | None => false end.
+Definition no_parent (s : osel) (p : list byte) : bool :=
+  match last_w (ospec s p) with Some c => negb (removable c) | None => true end.
+Fixpoint chain_ok (s : osel) (l : list (list byte)) : bool :=
+  match l with
+  | [] => false
+  | [z] => no_parent s z
+  | x :: ((y :: _) as r) => parent_rel s x y && chain_ok s r
+  end.
+Definition oracle_c09 (s : osel) (p : list byte) (out : val) : N :=
+  match vargs "c09" out with
+  | Some [par; VL anc; VL [snap]] =>
+      let par_ok :=
+        match obytes par with
+        | Some None => no_parent s p
+        | Some (Some r) => parent_rel s p r
+        | None => false
+        end in
+      let anc_b := flat_map (fun v => match v with VB b => [b] | _ => [] end) anc in
+      let anc_ok := Nat.eqb (List.length anc_b) (List.length anc) &&
+                    match anc_b with x :: _ => beq_list x p | [] => false end && chain_ok s anc_b in
+      let pop_ok :=
+        match vargs "t" snap, obytes par with
+        | Some [VB buf; VBool res; _], Some (Some r) => res && beq_list buf r
+        | Some [VB buf; VBool res; _], Some None => negb res && beq_list buf p
+        | _, _ => false
+        end in
+      ob (par_ok && anc_ok && pop_ok)
+  | _ => fail
+  end.
+
+Definition owf (s : osel) (p : list byte) : bool := match s with OU => wf_unix p | OW => wf_windows p end.
+
+(* ---------------- C12 ---------------- *)
+Definition spec_file_name (s : osel) (p : list byte) : option (list byte) :=
+  match last_w (ospec s p) with Some (WC (Normal n)) => Some n | _ => None end.
+Definition e_names_spec (s : osel) (p : list byte) : val :=
+  match spec_file_name s p with
+  | None => vt [VN; VN; VN]
+  | Some n => let (stem, ext) := split_name n in vt [VSome (VB n); VSome (VB stem); vopt VB ext]
+  end.
+Definition single_valid_name (s : osel) (n : list byte) : bool :=
+  wlist_eqb (ospec s n) [WC (Normal n)] && name_ok (otable s) n.
+Definition parent_comps (s : osel) (p : list byte) : list wcomp := removelast_w (ospec s p).
+Definition oracle_c12 (s : osel) (p n : list byte) (out : val) : N :=
+  match vargs "c12" out with
+  | Some [names_p; VB w; names_w; par_w; par_p; j] =>
+      let q_ok := val_eqb names_p (e_names_spec s p) in
+      (* reproduce: stem ++ "." ++ ext = name when an extension exists, stem = name otherwise *)
+      let rep_ok :=
+        match vargs "t" names_p with
+        | Some [fnv; stv; exv] =>
+            match obytes fnv, obytes stv, obytes exv with
+            | Some (Some f), Some (Some st), Some (Some e) => beq_list f (st ++ 46 :: e)
+            | Some (Some f), Some (Some st), Some None => beq_list f st
+            | Some None, Some None, Some None => true
+            | _, _, _ => false
+            end
+        | _ => false
+        end in
+      let repl_ok :=
+        if single_valid_name s n && owf s p then
+          match spec_file_name s p with
+          | Some _ =>
+              (* the new file name is n and the parent is the old parent (as paths) *)
+              match spec_file_name s w with Some n' => beq_list n' n | None => false end
+              && wlist_eqb (parent_comps s w) (parent_comps s p)
+              && match obytes par_w, obytes par_p with
+                 | Some (Some a), Some (Some b) => wlist_eqb (ospec s a) (ospec s b)
+                 | _, _ => false
+                 end
+          | None =>
+              match vargs "t" j with Some [VB jb; _] => beq_list w jb | _ => false end
+          end
+        else true in
+      ob (q_ok && rep_ok && repl_ok)
+  | _ => fail
+  end.
+
+(* ---------------- C13 ---------------- *)
+Definition sep_free (s : osel) (e : list byte) : bool :=
+  forallb (fun b => negb (match s with OU => usep_s b | OW => s_sep_any b end)) e.
+Definition KNOWN_C13_DOTSTEM : N := 13.
+Definition oracle_c13 (s : osel) (p e : list byte) (out : val) : N :=
+  match vargs "c13" out with
+  | Some [VL [snap]; VB r; names_r; par_r; par_p; names_p] =>
+      match vargs "t" snap with
+      | Some [VB buf; VBool res; _] =>
+          if negb (sep_free s e) then pass          (* the property quantifies over separator-free extensions *)
+          else
+          match spec_file_name s p with
+          | None => ob (negb res && beq_list buf p && beq_list r p)
+          | Some n =>
+              let (stem, _) := split_name n in
+              let newname := match e with [] => stem | _ => stem ++ 46 :: e end in
+              let dotstem := match e with [] => beq_list stem [46] || beq_list stem [46; 46] | _ => false end in
+              let basic := res && beq_list buf r in
+              if negb basic then fail
+              else if dotstem then KNOWN_C13_DOTSTEM
+              else
+                ob (match spec_file_name s r with Some n' => beq_list n' newname | None => false end
+                    && wlist_eqb (parent_comps s r) (parent_comps s p)
+                    && val_eqb names_r (e_names_spec s r))
+          end
+      | _ => fail
+      end
+  | _ => fail
+  end.
+
+(* ---------------- C17 ---------------- *)
+Definition oracle_c17 (s : osel) (typed : bool) (p : list byte) (out : val) : N :=
+  match vargs "c17" out with
+  | Some [valid; VL cvalid; jc] =>
+      let cs := ospec s p in
+      let tbl := otable s in
+      let v_ok := if typed then is_vn valid else val_eqb valid (VBool (forallb (comp_ok tbl) cs)) in
+      let cv_ok := val_eqb (VL cvalid) (VL (map (fun c => if typed then VN else VBool (comp_ok tbl c)) cs)) in
+      (* the checked operations say InvalidFilename exactly when the first offending component is an invalid name *)
+      let jc_ok :=
+        match scan_spec tbl cs O with
+        | Some e => val_eqb jc (VC "err" [e_err e])
+        | None => match vargs "ok" jc with Some [_] => true | _ => false end
+        end in
+      ob (v_ok && cv_ok && jc_ok)
+  | _ => fail
+  end.
+
+(* ---------------- C05 ---------------- *)
+Definition oracle_c05 (s : osel) (a b : list byte) (out : val) : N :=
+  match vargs "c05" out with
+  | Some [ec; ha; hb] =>
+      let ca := ospec s a in let cb := ospec s b in
+      let eq := wlist_eqb ca cb in
+      let c := wlist_cmp ca cb in
+      let ec_ok := val_eqb ec (vt [VBool eq; e_ord c; VSome (e_ord c); VBool (negb eq)]) in
+      let coh := Bool.eqb eq (match c with Eq => true | _ => false end) in
+      let hash_ok := if eq then val_eqb ha hb else true in
+      ob (ec_ok && coh && hash_ok)
+  | _ => fail
+  end.
+
+(* ---------------- C04 ---------------- *)
+Definition oracle_c04 (s : osel) (base p : list byte) (out : val) : N :=
+  match vargs "c04" out with
+  | Some [VL [snap]; jc; j] =>
+      match vargs "t" snap, vargs "t" j with
+      | Some [VB buf; err; _], Some [VB jb; _] =>
+          match scan_spec (otable s) (ospec s p) O with
+          | Some e =>
+              (* fails, names the first offending component, leaves the base byte-for-byte unchanged *)
+              ob (val_eqb err (e_err e) && beq_list buf base && val_eqb jc (VC "err" [e_err e]))
+          | None =>
+              (* succeeds with exactly the unchecked join *)
+              ob (is_vn err && beq_list buf jb && val_eqb jc (VC "ok" [VB jb]))
+          end
+      | _, _ => fail
+      end
+  | _ => fail
+  end.
+
+(* ---------------- C11 ---------------- *)
+Definition oracle_c11 (s : osel) (p : list byte) (out : val) : N :=
+  match vargs "c11" out with
+  | Some [VB n; fp; fn; VB nn; VL steps] =>
+      if negb (owf s p) then pass              (* the property quantifies over well-formed paths *)
+      else
+      let cs := ospec s p in
+      let expect := nfold cs [] in
+      (* the normalised path has exactly the folded components ... *)
+      let fold_ok := wlist_eqb (ospec s n) expect in
+      (* ... as the implementation itself reads them back, with no "." or ".." left *)
+      let got := flat_map (fun st => match vargs "st" st with Some l => match vsome (vnth l 0) with Some c => [c] | None => [] end | None => [] end) steps in
+      let read_ok := val_eqb (VL got) (VL (map e_wcomp (ospec s n))) in
+      let clean := forallb (fun c => negb (k_is_cur c || k_is_parent c)) (ospec s n) in
+      (* same prefix, root and absoluteness; idempotent on the bytes *)
+      let flags := val_eqb fp fn in
+      let idem := beq_list nn n in
+      (* only the primary separator after the prefix *)
+      let primary := match s with
+                     | OU => true
+                     | OW => let body := match ospec s n with WPrefix raw _ :: _ => skipn (List.length raw) n | _ => n end in
+                             negb (mem_b 47 body) || negb (s_norm n)
+                     end in
+      ob (fold_ok && read_ok && clean && flags && idem && primary)
+  | _ => fail
+  end.
+
+(* ---------------- C10 (Unix; the Windows relations compare raw bytes: known class D7) ---------------- *)
+Definition oracle_c10 (s : osel) (a b : list byte) (out : val) : N :=
+  match s, vargs "c10" out with
+  | OU, Some [rel; ec; j; rel2] =>
+      let ca := ospec s a in let cb := ospec s b in
+      let sw := wlist_prefix cb ca in
+      let ew := wlist_suffix cb ca in
+      match vargs "t" rel with
+      | Some [VBool sw'; VBool ew'; sp] =>
+          let sp_ok :=
+            match obytes sp with
+            | Some (Some r) => sw && wlist_eqb (ospec s r) (skipn (List.length cb) ca)
+            | Some None => negb sw
+            | None => false
+            end in
+          ob (Bool.eqb sw sw' && Bool.eqb ew ew' && sp_ok)
+      | _ => fail
+      end
+  | OW, Some _ => pass
+  | _, _ => fail
+  end.
+
+Definition oracle (name suffix : string) (args : list val) (out : val) : N :=
+  let typed := tag_is suffix "tu" || tag_is suffix "tw" || tag_is suffix "t8u" || tag_is suffix "t8w" in
+  match osel_of suffix with
+  | None => pass
+  | Some s =>
+      if tag_is name "c03" then
+        match args with [VB p; VB sched] => oracle_c03 s p (e_dirs sched) out | _ => fail end
+      else if tag_is name "c04" then
+        match args with [VB a; VB b] => oracle_c04 s a b out | _ => fail end
+      else if tag_is name "c05" then
+        match args with [VB a; VB b] => oracle_c05 s a b out | _ => fail end
+      else if tag_is name "c09" then
+        match args with [VB p] => oracle_c09 s p out | _ => fail end
+      else if tag_is name "c10" then
+        match args with [VB a; VB b] => oracle_c10 s a b out | _ => fail end
+      else if tag_is name "c11" then
+        match args with [VB p] => oracle_c11 s p out | _ => fail end
+      else if tag_is name "c12" then
+        match args with [VB p; VB n] => oracle_c12 s p n out | _ => fail end
+      else if tag_is name "c13" then
+        match args with [VB p; VB e] => oracle_c13 s p e out | _ => fail end
+      else if tag_is name "c17" then
+        match args with [VB p] => oracle_c17 s typed p out | _ => fail end
+      else pass
+  end.
